@@ -275,13 +275,13 @@ func c05GenWrapCase(r *VRand, stats *VStats) *c05WrapCase {
 	case "snf":
 		if r.Chance(0.2) {
 			// a hello that needs more, then RST: the stream error is latched
-			h := c05ClientHello(r, "tls.example.com")
+			h := c05ClientHello(r, "tls.example.com", 300)
 			c.held = h[:r.Range(17, len(h)-1)]
 			c.poison, c.eof, c.chunks = true, false, nil
 		} else if r.Bool() {
 			c.held = []byte("GET /index.html HTTP/1.1\r\nHost: www.example.com\r\nUser-Agent: x\r\n\r\n")
 		} else {
-			c.held = c05ClientHello(r, "tls.example.com")
+			c.held = c05ClientHello(r, "tls.example.com", 300)
 		}
 	}
 	L := len(c.held)
